@@ -33,7 +33,6 @@ use verif_harness::world::*;
 const K_CAP: &str = "atr-payout-cap-reads-unfilled-treasury";
 const K_GT: &str = "invalid-golden-ticket-never-cleaned";
 const K_CLASH: &str = "rebroadcast-clash-drains-pool";
-const K_TS: &str = "bundle-asserts-timestamp-order";
 const K_ISSUANCE: &str = "type-issuance-pool";
 const K_STAKE: &str = "foreign-stake-transaction-pooled";
 const K_DUST: &str = "dust-output-spent-at-window-edge";
@@ -678,16 +677,9 @@ impl Rig {
                     .or_else(|| e.downcast_ref::<&str>().map(|s| s.to_string()))
                     .unwrap_or_default();
                 outcome = Outcome::Panicked;
-                if ts <= tip.timestamp && msg.contains("should be larger than previous block timestamp") {
-                    findings.push((
-                        format!("bundle_block panics (assert) when its timestamp {} is not after the tip's timestamp {}", ts, tip.timestamp),
-                        Some(K_TS),
-                    ));
-                    expected = vec![vec![903]];
-                } else {
-                    findings.push((format!("bundle_block panicked: {}", msg), None));
-                    expected = vec![vec![999]];
-                }
+                // since fix f62222f bundle_block declines when the timestamp is not after the tip's
+                findings.push((format!("bundle_block panicked (timestamp {} / tip timestamp {}): {}", ts, tip.timestamp, msg), None));
+                expected = vec![vec![999]];
                 detail = format!("panic: {}", msg);
             }
             Ok(None) => {
@@ -1288,7 +1280,7 @@ fn scripted_spec(rig: &Rig, plan: &Plan, round: usize) -> Option<RoundSpec> {
             }
             Some(RoundSpec { items, gt: if round % 2 == 1 { GtSpec::Valid } else { GtSpec::None }, gap: big, label: "issuance".to_string() })
         }
-        // timestamp not after the tip's
+        // timestamp not after the tip's (bundle_block must decline, not panic)
         3 => {
             let gap = match round {
                 2 => 0,
